@@ -75,12 +75,41 @@ def eval_sequence(seq: Tuple[int, ...], reader: str, tally: Tally) -> List[Viola
     stream = io.BytesIO()
     for i in seq:
         tname, aval, _ = ALPHABET[i]
-        m = av.make_bp(bp, SCHEMA, SCHEMA.msg(tname), aval, "ctor")
-        msgs.append(m)
-        bodies.append(bytes(m))
-        m.dump(stream, betterproto.SIZE_DELIMITED)
+        try:
+            m = av.make_bp(bp, SCHEMA, SCHEMA.msg(tname), aval, "ctor")
+            msgs.append(m)
+            bodies.append(bytes(m))
+            m.dump(stream, betterproto.SIZE_DELIMITED)
+        except Exception as e:
+            bad("dump-raised", f"writing message {ALPHABET[i][2]}: {type(e).__name__}: {e}", {"involved": [ALPHABET[i][2]]})
+            return out
         tally.inc("edges")
     full = stream.getvalue()
+    if len(seq) >= 2 and reader == "same":
+        # re-use ONE live object for the whole sequence: write it, change it in place, write again
+        reuse = bp.W()
+        s2 = io.BytesIO()
+        want2 = b""
+        for i in seq:
+            tname, aval, _ = ALPHABET[i]
+            if tname != "W":
+                reuse = None
+                break
+            for fname, val in aval.items():
+                f = SCHEMA.msg("W").field(fname)
+                if f.card == "repeated":
+                    getattr(reuse, fname).extend(val)
+                elif f.card == "map":
+                    getattr(reuse, fname).update(val)
+                elif f.base == "msg":
+                    for k2, v2 in val.items():
+                        setattr(getattr(reuse, fname), k2, v2)
+                else:
+                    setattr(reuse, fname, val)
+            reuse.dump(s2, betterproto.SIZE_DELIMITED)
+            want2 += wire.delimited(bytes(reuse))
+        if reuse is not None and s2.getvalue() != want2:
+            bad("framing-reused-object", f"one object changed in place and dumped repeatedly: stream {s2.getvalue().hex()[:80]} != {want2.hex()[:80]}", {})
     # framing = varint length prefix (wire model) = what the reference writes
     want = b"".join(wire.delimited(b) for b in bodies)
     refout = io.BytesIO()
